@@ -159,8 +159,9 @@ func child(b run.Batch, r *ev.Result) {
 	case "prodwt":
 		// production build (no test tag) next to a fake WattTime service: lib/prodwt
 		prodwt.RunEpisodes(r, b, b.Seed, strings.Split(b.P("scenarios"), ","))
-		prodwt.RunWeekRot(r, b, b.Seed+700, "C13", 2) // lib/prodwt/weekrot.go: rotation with devices while a WattTime job waits (only on some days of the week)
-		prodwt.RunLife(r, b, b.Seed+500, "C13", 2) // lib/prodwt/life.go: the C13 slice of a production server's short life (WattTime up / down)
+		prodwt.RunRace(r, b, b.Seed+900, []string{"weekban", "life"}) // the production build under the race detector
+		prodwt.RunWeekRot(r, b, b.Seed+700, "C13", 2)                            // lib/prodwt/weekrot.go: rotation with devices while a WattTime job waits (only on some days of the week)
+		prodwt.RunLife(r, b, b.Seed+500, "C13", 2)                               // lib/prodwt/life.go: the C13 slice of a production server's short life (WattTime up / down)
 	default:
 		r.Inconc("unknown batch kind " + b.Kind)
 	}
